@@ -1221,3 +1221,110 @@ func E2CarriedShadow(c *core.Ctx, r *core.Report) {
 	r.Count("E2.carried-loops", n)
 	r.Floor("E2.carried-loops", 6)
 }
+
+// E2MoveReplayed: a decoder that rebuilds a path through the builder API starts a sub-path where the input does.
+func E2MoveReplayed(c *core.Ctx, r *core.Report) {
+	r.Rule("E2.move-replayed", "a loop that decodes a path and rebuilds it on an output path with the builder API (its command switch has a MoveToCmd case and its LineToCmd case calls Q.LineTo) handles MoveToCmd by starting a sub-path on the same output: the MoveToCmd case calls Q.MoveTo (or appends a MoveTo record / starts a fresh Q). Without it the pen is not lifted: the first segment of every later sub-path is drawn from where the previous sub-path ended")
+	p := c.MustPkg("")
+	info := p.TypesInfo
+	n := 0
+	for _, fd := range core.AllFuncDecls(p) {
+		if fd.Body == nil || strings.HasSuffix(c.Fset.Position(fd.Pos()).Filename, "_test.go") {
+			continue
+		}
+		fname := "canvas." + core.FuncName(fd)
+		ord := 0
+		for _, sw := range cmdSwitches(p, fd) {
+			var lineCase, moveCase *ast.CaseClause
+			for _, cs := range sw.Body.List {
+				cc := cs.(*ast.CaseClause)
+				for _, k := range core.CaseConsts(info, cc) {
+					if k == "LineToCmd" {
+						lineCase = cc
+					}
+					if k == "MoveToCmd" {
+						moveCase = cc
+					}
+				}
+			}
+			if lineCase == nil || moveCase == nil {
+				continue // single-segment builders and per-sub-path loops (Path.offset) have no MoveTo case
+			}
+			// outputs: locals Q with Q.LineTo(...) in the LineTo case
+			outs := map[types.Object]bool{}
+			ast.Inspect(&ast.BlockStmt{List: lineCase.Body}, func(m ast.Node) bool {
+				if call, ok := m.(*ast.CallExpr); ok {
+					if se, ok := call.Fun.(*ast.SelectorExpr); ok && se.Sel.Name == "LineTo" {
+						if id, ok := core.Unparen(se.X).(*ast.Ident); ok {
+							if o := core.ObjOf(info, id); o != nil && isNamed(o.Type(), "tdewolff/canvas", "Path") {
+								outs[o] = true
+							}
+						}
+					}
+				}
+				return true
+			})
+			for q := range outs {
+				n++
+				ord++
+				key := fmt.Sprintf("%s|rebuilding loop #%d|MoveTo starts a sub-path on the output", fname, ord)
+				if moveCase == nil {
+					// a switch without a MoveTo case: acceptable only if MoveTo is handled before the switch (not the case anywhere today)
+					r.Fail("E2.move-replayed", key, c.Pos(sw.Pos()), fmt.Sprintf("the command switch rebuilds the path on `%s` but has no MoveToCmd case", q.Name()))
+					continue
+				}
+				handled := false
+				ast.Inspect(&ast.BlockStmt{List: moveCase.Body}, func(m ast.Node) bool {
+					switch x := m.(type) {
+					case *ast.CallExpr:
+						if se, ok := x.Fun.(*ast.SelectorExpr); ok && se.Sel.Name == "MoveTo" {
+							if id, ok := core.Unparen(se.X).(*ast.Ident); ok && core.ObjOf(info, id) == q {
+								handled = true
+							}
+						}
+					case *ast.AssignStmt:
+						for _, l := range x.Lhs {
+							if id, ok := l.(*ast.Ident); ok && core.ObjOf(info, id) == q {
+								handled = true // a fresh output path is started
+							}
+							if sel, ok := l.(*ast.SelectorExpr); ok {
+								if id, ok := core.Unparen(sel.X).(*ast.Ident); ok && core.ObjOf(info, id) == q && sel.Sel.Name == "d" {
+									handled = true // a record is appended by hand (checked by E2.record)
+								}
+							}
+						}
+					}
+					return true
+				})
+				if handled {
+					r.OK("E2.move-replayed", key, c.Pos(moveCase.Pos()), "")
+				} else {
+					r.Fail("E2.move-replayed", key, c.Pos(moveCase.Pos()), fmt.Sprintf("the MoveToCmd case does not start a sub-path on `%s`, the path the other cases draw on: the pen is not lifted between the sub-paths of the input", q.Name()))
+				}
+			}
+		}
+	}
+	r.Count("E2.rebuilding-loops", n)
+	r.Floor("E2.rebuilding-loops", 2)
+}
+
+// cmdSwitches lists the switch statements of fd whose cases are path commands.
+func cmdSwitches(p *packages.Package, fd *ast.FuncDecl) []*ast.SwitchStmt {
+	var out []*ast.SwitchStmt
+	ast.Inspect(fd.Body, func(n ast.Node) bool {
+		sw, ok := n.(*ast.SwitchStmt)
+		if !ok || sw.Tag == nil {
+			return true
+		}
+		for _, cs := range sw.Body.List {
+			for _, k := range core.CaseConsts(p.TypesInfo, cs.(*ast.CaseClause)) {
+				if _, isCmd := recordLen[k]; isCmd {
+					out = append(out, sw)
+					return true
+				}
+			}
+		}
+		return true
+	})
+	return out
+}
